@@ -33,6 +33,15 @@ def derive_seed(seed, shard, salt=''):
     return int.from_bytes(h, 'big') % (2 ** 63)
 
 
+def class_groups(classes):
+    g = {}
+    for k, v in classes.items():
+        if ':' in k:
+            p = k.split(':', 1)[0]
+            g[p] = g.get(p, 0) + v
+    return dict(sorted(g.items(), key=lambda kv: -kv[1])[:40])
+
+
 def load_known():
     p = os.path.join(VERIF, 'known_findings.json')
     if not os.path.exists(p):
@@ -418,6 +427,10 @@ def main(argv=None):
                                [(0, d['case']) for _, d in
                                 corpus_cases(pid)][:2]],
         'classes': dict(sorted(classes.items(), key=lambda kv: -kv[1])[:60]),
+        # totals per class family (text before the first ':'), so that the
+        # many small systematic classes that fall off the top-60 list above
+        # are still counted (e.g. 'serial-interrupt', 'systematic')
+        'class_groups': class_groups(classes),
         'inconclusive_budget_hits': inconclusive,
         'corpus_replayed': corpus_n,
         'shards': nshards,
